@@ -28,6 +28,13 @@ def program(n, reqs, raw, opts, tail_datagram=True):
     data = bytes((i * 7 + 3) % 251 for i in range(n))
     if n <= 600:
         pe = '"|%s|"' % data.hex() if n else '""'
+        # the ways a script hands the payload over: inline, one let-bound value (also used elsewhere afterwards), several
+        # arguments, a let-bound value produced by a call
+        form = (n + len(reqs) + (1 if raw else 0)) % 5
+        if n and form == 1: lines.append('let pay = %s;' % pe); pe = 'pay'
+        elif n and form == 2: lines.append('let pay = text::concat(%s);' % pe); pe = 'pay'
+        elif n > 1 and form == 3: pe = '"|%s|", "|%s|"' % (data[:n // 2].hex(), data[n // 2:].hex())
+        elif n > 1 and form == 4: lines.append('let pa = "|%s|";' % data[:n // 2].hex()); lines.append('let pb = "|%s|";' % data[n // 2:].hex()); pe = 'pa, pb'
     else:
         blk = 500
         names = []
